@@ -2118,7 +2118,23 @@ func (m *repoManager) findMatch(kvv kvVersions, v dvid.VersionID) (*storage.KeyV
 		var foundKV *storage.KeyValue
 		var foundV dvid.VersionID
 		foundVs := make(map[dvid.VersionID]struct{})
+		var conflicted []dvid.VersionID
 		for _, parent := range parents {
+			matchKV, matchV, err := m.findMatch(kvv, parent)
+			if err != nil {
+				// An unresolved conflict further up this parent's lineage may be settled by an entry on
+				// a later parent's lineage (its walk marks the conflicting entries as superseded), so
+				// look at the other parents first.
+				conflicted = append(conflicted, parent)
+				continue
+			}
+			if matchKV != nil && matchKV.K != nil && !matchKV.K.IsTombstone() {
+				foundKV = matchKV
+				foundV = matchV
+				foundVs[matchV] = struct{}{}
+			}
+		}
+		for _, parent := range conflicted {
 			matchKV, matchV, err := m.findMatch(kvv, parent)
 			if err != nil {
 				return nil, parent, err
